@@ -131,7 +131,7 @@ func solveWith(file string, timeoutS int, wantUnsat int, solvers []solverSpec) s
 }
 
 func writeQuery(workDir string, pre *Prelude, o *Obligation) string {
-	prelude, post := pre.For(o.Query, o.NoLemmas, o.Uses)
+	prelude, post := pre.For(o.Query, o.NoLemmas, o.Uses, o.Native)
 	var b strings.Builder
 	b.WriteString("; obligation " + o.Name + "\n; " + o.Where + "\n; " + o.Src + "\n")
 	b.WriteString("(set-option :produce-models true)\n(set-logic ALL)\n")
@@ -200,7 +200,7 @@ func fnSanity(fn, workDir string, pre *Prelude, obls []*Obligation) bool {
 	}
 	ok := true
 	if big != nil {
-		prelude, post := pre.For(big.Query, big.NoLemmas, big.Uses)
+		prelude, post := pre.For(big.Query, big.NoLemmas, big.Uses, big.Native)
 		q := big.Query
 		if k := strings.LastIndex(q, "(assert (not "); k >= 0 {
 			q = q[:k]
